@@ -42,12 +42,17 @@ static void mkdeep(int total) { /* chdir into a directory whose absolute path is
     while (have < total) { char d[128]; int n = total - have - 1; if (n > 100) n = 100; if (n < 1) break; memset(d, 'd', n); d[n] = 0; mkdir(d, 0755); if (chdir(d)) { perror("chdir deep"); exit(3); } have += n + 1; }
 }
 
+const char *__asan_default_options(void);
+const char *__asan_default_options(void) { return "detect_leaks=0"; }
 int main(int argc, char **argv) {
     if (argc < 2) return 2;
     char *spec = strdup(argv[1]); char *kvs[64]; int nk = 0; char *sv = NULL;
     for (char *t = strtok_r(spec, ";", &sv); t && nk < 63; t = strtok_r(NULL, ";", &sv)) kvs[nk++] = t;
     kvs[nk] = NULL;
     strcpy(verif_cfgpath, "/nonexistent/verif/snoopy.ini");
+    /* stage 2 of an "exec2" state: this image was exec'ed AFTER the state (ids included) had been built, so the kernel started it in
+       secure-execution mode (AT_SECURE) whenever real and effective ids differ - the state itself survived the exec */
+    if (!strcmp(argv[0], "h_state-stage2")) goto library;
     /* ---- ancestor chain: become the last process of a chain of renamed processes */
     const char *chain = kv(kvs, "chain", "");
     if (*chain) {
@@ -108,6 +113,8 @@ int main(int argc, char **argv) {
         if (setresgid(rg, eg, sg)) { perror("setresgid"); return 3; }
         if (setresuid(r, e, s)) { perror("setresuid"); return 3; }
     }
+    if (atoi(kv(kvs, "exec2", "0"))) { char *nav[] = { "h_state-stage2", argv[1], NULL }; execv("/proc/self/exe", nav); perror("execv self"); return 3; }
+library:
     /* ---- the library, initialised as the wrapper does */
     snoopy_init();
     snoopy_inputdatastorage_store_filename("/bin/prog");
